@@ -158,6 +158,11 @@ def e_str(ctx, depth=0):
 
 def e_int(ctx, depth=0):
     d = ctx.draw
+    if d(st.integers(0, 24)) == 0:
+        # distinct numbers with equal CPython hashes (-1 / -2; 0 / 2**61-1): equality, not hashing, decides what is "distinct"
+        if ctx.js or d(st.booleans()):
+            return mk('(-1 - NR % 2)', '(-1 - NR % 2)', 'int')
+        return mk('(NR % 2 * 2305843009213693951)', None, 'int')
     k = d(st.integers(0, 8 if depth < 2 else 3))
     if k == 0:
         return {'py': 'NR', 'js': 'NR', 'name': {'id': 'NR'}, 'ty': 'int'}
@@ -350,6 +355,9 @@ def st_join_table(draw, max_rows, max_width, pool, first_full, allow_empty_p=10)
     """Tables for join cases: the first 1-2 columns hold few distinct key values (so that
     multi-match and unmatched keys are common); columns beyond the first may be missing."""
     keypool = ['a', 'b', 'ab', '']
+    if draw(st.integers(0, 3)) == 0:
+        # composite keys whose textual concatenation coincides although the tuples differ; digits that equal record numbers as text
+        keypool = ['a', 'a,b', 'b', ',', '', '1', '2', 'a,', ',b', '3']
     width = draw(st.integers(1, max_width))
     nrows = 0 if draw(st.integers(0, allow_empty_p)) == 0 else draw(st.integers(1, max_rows))
     ragged = draw(st.integers(0, 2)) == 0
@@ -432,7 +440,7 @@ def render_item(it, lang, K=None):
     if t is None:
         raise ValueError('item not renderable in %s' % lang)
     if it.get('alias'):
-        t += ' %s %s' % (K(it.get('as_kw', 'AS')), it['alias'])
+        t += '%s%s%s%s%s' % (it.get('as_lead', ' '), K(it.get('as_kw', 'AS')), it.get('as_sp', ' '), it['alias'], it.get('as_trail', ''))
     return t
 
 
@@ -580,6 +588,10 @@ def st_case_select(draw, js=False, join_p=3, order=False, distinct=False, top=Fa
         q['items'] = [{'k': 'star'}]
         nex = draw(st.integers(1, min(aw, 3)))
         idxs = draw(st.lists(st.integers(0, aw - 1), min_size=nex, max_size=nex, unique=True))
+        if draw(st.integers(0, 3)) == 0:
+            # the same column may be named twice (possibly in two spellings) and in any order
+            idxs = idxs + [draw(st.sampled_from(idxs))]
+            idxs = draw(st.permutations(idxs))
         q['except'] = []
         for i in idxs:
             sps = ['aN', 'a[N]']
